@@ -18,6 +18,7 @@ Line protocol for K_C03 (one op per line → one output line).
                                 read back by `read_cache` (`whole` = `filesize == bytes_transfered`)   → `ok`
   `cancel <id>`                 the task awaiting invocation `id` is cancelled                         → `ok`
   `resume` | `spawn` | `setfile` | `reload`                                                    → `ok`
+  `fsfault <0|1>`               the file system starts / stops refusing removals (`os.remove` raises `OSError`) → `ok`
   `obs`        what is observable now (and since the last `obs`); then the clock ticks
      → `<STATE> lock=<0|1> w=<waiters> ev=<listener>:<OLD>NEW,…|- ret=<id>:<T|F|R>,…|- <fields>`
         (`R` = `InvalidStateTransition` raised by a manager call, `C` = the caller got `CancelledError`,
@@ -160,6 +161,10 @@ def handle (d : DState) (line : String) : DState × String :=
   | ["resume"] => ({ d with x := step d.cfg d.x .resume }, "ok")
   | ["spawn"] => ({ d with x := step d.cfg d.x .spawn }, "ok")
   | ["setfile"] => ({ d with x := step d.cfg d.x .setFile }, "ok")
+  | ["fsfault", b] =>
+    match bool? b with
+    | some b => ({ d with x := step d.cfg d.x (.fsFault b) }, "ok")
+    | none => (d, "err bad-arg")
   | ["obs"] =>
     let out := observe d
     ({ d with x := step d.cfg d.x .tick, seen := d.x.trace.length, fresh := [] }, out)
